@@ -4,7 +4,7 @@
 crossed with the option matrix; run through tex2txt() of /repo and through
 the extracted model (op `tex2txt`)."""
 import os, random
-import core, parsecase
+import core, parsecase, seeds
 from gens import docs
 
 FILES = {
@@ -64,8 +64,26 @@ def options(rng, lang_doc):
         unkn=rng.random() < 0.05, thresh=rng.choice([0, 1, 2, 3, 5]))
 
 
-def gen_cases(rng, n, kinds=('doc', 'prefix', 'delete', 'insert', 'soup')):
+def seed_cases(rng, n):
+    """snippets of /repo's tests and their mutations (harness/seeds.py)"""
+    sd = seeds.load()
+    for i in range(n):
+        s = rng.choice(sd)
+        if i >= len(sd) or rng.random() < 0.5:
+            s = seeds.mutate(rng, s, sd)
+        else:
+            s = sd[i % len(sd)]
+        o = options(rng, rng.random() < 0.3)
+        if rng.random() < 0.6:
+            o['pack'] = '*'
+        if rng.random() < 0.7:
+            o['repl'] = None
+        yield parsecase.T2T(s, files=dict(FILES), **o), None, 'seed'
+
+
+def gen_cases(rng, n, kinds=('doc', 'prefix', 'delete', 'insert', 'soup'), seed_share=0.3):
     """yields (case, doc or None, kind)"""
+    yield from seed_cases(rng, int(n * seed_share))
     for i in range(n):
         lang_doc = i % 2 == 0
         kind = kinds[i % len(kinds)] if i % 3 else 'doc'
@@ -118,6 +136,47 @@ def run(cases, res, stream, project, oracle, sample_rule=None):
         bad = oracle(c, d, kind, im)
         if bad:
             res.failures.append(('%s:%r' % (stream, c.key()), c.json(), bad))
+
+
+def run_seeds(rng, res, project, tier, share=1.0):
+    """the seed stream for properties with a generator of their own"""
+    n = int((250 if tier == 'quick' else 6000) * share)
+    cases = list(seed_cases(rng, n))
+    for i in range(0, len(cases), 2000):
+        run(cases[i:i + 2000], res, 'seed', project, lambda *a: None)
+
+
+# --------------------------------------------------------------------------
+#  known findings with one root cause: the handler of headings (\\section,
+#  \\title, ...) expands its argument to look at the last character and
+#  then returns the unexpanded argument, which the main loop expands again.
+#  Side effects of the expansion happen twice.
+# --------------------------------------------------------------------------
+HEADING_FINDINGS = {
+    'C03': ('K6', '\\section{Title QQj0k\\footnote{zzq1k xxj2k}} JJz3k\n',
+            lambda t: t.count('zzq1k') == 2,
+            'the footnote of a heading is extracted twice'),
+    'C10': ('K3', '\\section{A $x$ B} $y$\n',
+            lambda t: 'A D-D-D B' in t and 'C-C-C' not in t,
+            'a formula in a heading advances the placeholder twice'),
+    'C09': ('K7', '\\section{\\ux w \\newcommand{\\ux}{BODY}} t\n',
+            lambda t: 'BODY' in t,
+            'a macro defined inside a heading is expanded at a use that '
+            'precedes the definition'),
+}
+
+
+def heading_finding(pid, res):
+    """run the directed input of the finding; if the defect shows, report it
+    under the key of the known finding (core.finish prints KNOWN-FINDING for
+    an open one and VIOLATION once it is recorded as fixed)"""
+    key, latex, shows, what = HEADING_FINDINGS[pid]
+    scratch_dir()
+    c = parsecase.T2T(latex, lang='en', pack='*', files={})
+    im = parsecase.run_t2t(c)
+    res.count('finding-' + key, c.key(), nontrivial=True)
+    if im[0] == 'OK' and shows(im[1][1]):
+        res.failures.append((key, c.json(), what + ': %r -> %r' % (latex, im[1][1])))
 
 
 def outcome_class(r):
